@@ -452,7 +452,7 @@ func (ls *LState) ToStringMeta(lv LValue) LValue {
 
 // Set a module loader to the package.preload table.
 func (ls *LState) PreloadModule(name string, loader LGFunction) {
-	preload := ls.GetField(ls.GetField(ls.Get(EnvironIndex), "package"), "preload")
+	preload := ls.GetField(loPackage(ls), "preload")
 	if _, ok := preload.(*LTable); !ok {
 		ls.RaiseError("package.preload must be a table")
 	}
